@@ -830,6 +830,159 @@ theorem selectIndex_two_ellipses (sh : List Nat) (pre mid post : List IxE) (hpre
       hmid
     exact ⟨e, by rw [he]⟩
 
+/-! ### the NumPy probe of `_selected_count` counts what h5py selects -/
+
+theorem adjustBound_clamp (len : Nat) (v : Int) (dflt : Nat) :
+    ((adjustBound len dflt (some v) : Nat) : Int) = Nix.Py.clampBound v len 0 len := by
+  unfold adjustBound Nix.Py.clampBound
+  by_cases h1 : v < 0
+  · simp only [h1, if_true]
+    by_cases h2 : v + (len : Int) < 0
+    · simp [h2]
+    · simp only [h2, if_false]; omega
+  · simp only [h1, if_false]
+    by_cases h2 : v ≥ (len : Int)
+    · have : v > (len : Int) ∨ v = len := by omega
+      rcases this with h | h
+      · simp [h2, h]
+      · subst h; simp
+    · have : ¬ v > (len : Int) := by omega
+      simp only [h2, this, if_false]; omega
+
+theorem indices_pos (n : Nat) (a b c : Option Int) (hk : sliceStep c ≥ 1) :
+    (Nix.Py.PySlice.mk a b c).indices n =
+      .ok (((adjustBound n 0 a : Nat) : Int), ((adjustBound n n b : Nat) : Int), sliceStep c) := by
+  have ha : (match a with
+      | none => (0 : Int)
+      | some v => Nix.Py.clampBound v (n : Int) 0 (n : Int)) = ((adjustBound n 0 a : Nat) : Int) := by
+    cases a with
+    | none => rfl
+    | some v => exact (adjustBound_clamp n v 0).symm
+  have hb : (match b with
+      | none => (n : Int)
+      | some v => Nix.Py.clampBound v (n : Int) 0 (n : Int)) = ((adjustBound n n b : Nat) : Int) := by
+    cases b with
+    | none => rfl
+    | some v => exact (adjustBound_clamp n v n).symm
+  cases c with
+  | none =>
+    simp only [Nix.Py.PySlice.indices, sliceStep]
+    simp
+    exact ⟨ha, hb⟩
+  | some k =>
+    simp only [sliceStep] at hk
+    have hs0 : ¬ (k = 0) := by omega
+    have hneg : ¬ (k < 0) := by omega
+    simp only [Nix.Py.PySlice.indices, sliceStep]
+    simp [hs0, hneg]
+    exact ⟨ha, hb⟩
+
+theorem selectAxis_count (n : Nat) (ix : Ix) (s : AxisSel) (h : selectAxis n ix = .ok s) :
+    npAxisCount n ix = some s.count := by
+  cases ix with
+  | int i =>
+    simp only [selectAxis] at h
+    split at h
+    · rename_i hr
+      cases h
+      simp [npAxisCount, hr]
+    · cases h
+  | slice a b c =>
+    simp only [selectAxis] at h
+    split at h
+    · cases h
+    · rename_i hstep
+      have hk : sliceStep c ≥ 1 := by omega
+      simp only [npAxisCount, indices_pos n a b c hk]
+      congr 1
+      unfold Nix.Py.rangeLen
+      have hpos : sliceStep c > 0 := by omega
+      rw [if_pos hpos]
+      obtain ⟨k, hkk⟩ : ∃ k : Nat, sliceStep c = (k : Int) := ⟨(sliceStep c).toNat, by omega⟩
+      have hk1 : 1 ≤ k := by omega
+      split at h
+      · rename_i hlt
+        cases h
+        have : ¬ ((adjustBound n 0 a : Nat) : Int) < ((adjustBound n n b : Nat) : Int) := by omega
+        rw [if_neg this]
+      · rename_i hge
+        cases h
+        simp only
+        by_cases heq : adjustBound n n b = adjustBound n 0 a
+        · have : ¬ ((adjustBound n 0 a : Nat) : Int) < ((adjustBound n n b : Nat) : Int) := by omega
+          rw [if_neg this, if_pos heq]
+        · have hlt : ((adjustBound n 0 a : Nat) : Int) < ((adjustBound n n b : Nat) : Int) := by omega
+          rw [if_pos hlt, if_neg heq, hkk]
+          have hd : (((adjustBound n n b : Nat) : Int) - ((adjustBound n 0 a : Nat) : Int) - 1) =
+              ((adjustBound n n b - adjustBound n 0 a - 1 : Nat) : Int) := by omega
+          rw [hd, Int.toNat_natCast k, ← Int.natCast_ediv]
+          generalize (adjustBound n n b - adjustBound n 0 a - 1) / k = q
+          omega
+
+theorem npCountPlain_select : ∀ (sh : List Nat) (ixs : List Ix) (sel : List AxisSel),
+    select sh ixs = .ok sel → npCountPlain sh ixs = some (selCount sel)
+  | [], [], sel, h => by cases h; rfl
+  | [], _ :: _, _, h => by simp [select] at h
+  | n :: ns, [], sel, h => by
+    simp only [select] at h
+    split at h
+    · rename_i r hr
+      cases h
+      simp [npCountPlain, npCountPlain_select ns [] r hr, selCount]
+    · cases h
+  | n :: ns, i :: is, sel, h => by
+    simp only [select] at h
+    split at h
+    · cases h
+    · rename_i s hs
+      split at h
+      · rename_i r hr
+        cases h
+        simp [npCountPlain, selectAxis_count n i s hs, npCountPlain_select ns is r hr, selCount]
+      · cases h
+
+theorem select_length_le : ∀ (sh : List Nat) (l : List Ix) (r : List AxisSel),
+    select sh l = .ok r → l.length ≤ sh.length
+  | _, [], _, _ => by simp
+  | [], _ :: _, _, h => by simp [select] at h
+  | n :: ns, x :: xs, r, h => by
+    simp only [select] at h
+    split at h
+    · cases h
+    · split at h
+      · rename_i r' hr'
+        have := select_length_le ns xs r' hr'
+        simp only [List.length_cons]
+        omega
+      · cases h
+
+/-- for every index without `Ellipsis` that h5py accepts, the NumPy probe of `_selected_count` yields the number of
+elements h5py selects -/
+theorem h5SelectedCount_select (A : DArr) (ix : IndexArg) (ixs : List Ix) (sel : List AxisSel)
+    (hitems : ix.orFull.items = ixs.map .ix) (hs : select A.arr.shape ixs = .ok sel) :
+    h5SelectedCount A ix = some (selCount sel) := by
+  have hlen := select_length_le _ _ _ hs
+  cases ix with
+  | none =>
+    simp only [IndexArg.orFull, fullSlice, IndexArg.items] at hitems
+    cases ixs with
+    | nil => simp at hitems
+    | cons x xs =>
+      cases xs with
+      | nil =>
+        simp only [List.map_cons, List.map_nil, List.cons.injEq, IxE.ix.injEq, and_true] at hitems
+        subst hitems
+        exact npCountPlain_select _ _ _ hs
+      | cons y ys => simp at hitems
+  | one i =>
+    simp only [IndexArg.orFull] at hitems
+    simp only [h5SelectedCount, hitems, npExpand_plain _ _ hlen, Option.bind]
+    exact npCountPlain_select _ _ _ hs
+  | tuple l =>
+    simp only [IndexArg.orFull] at hitems
+    simp only [h5SelectedCount, hitems, npExpand_plain _ _ hlen, Option.bind]
+    exact npCountPlain_select _ _ _ hs
+
 /-! ### accepted kinds: the typed write is the assignment of the converted data, in both directions -/
 
 theorem h5SetItem_accepts (A B : DArr) (ix : IndexArg) (ixs : List Ix) (d : Arr)
